@@ -551,7 +551,7 @@ func (d *Driver) FamMutate(perType int, dense bool) {
 			// sub-messages too, where the reference runtime skips a field of an unexpected wire type as unknown
 			for _, pos := range keyOffsets(b, 0, 0) {
 				for wt := byte(0); wt < 8; wt++ {
-					if wt == b[pos]&7 || (!dense && d.R.Intn(5) > 0) {
+					if wt == b[pos]&7 || (!dense && n > 1 && d.R.Intn(5) > 0) {
 						continue
 					}
 					mb := append([]byte{}, b...)
@@ -578,6 +578,52 @@ func (d *Driver) FamMutate(perType int, dense bool) {
 					{0xff, 0xff, 0xff, 0xff, 0xff, 0xff, 0xff, 0xff, 0xff, 0x01}}[d.R.Intn(5)]
 				mb := append(append(append([]byte{}, b[:pos]...), pre...), b[pos+1:]...)
 				d.unmarshalOne(ti, mb, false, fmt.Sprintf("inflate-%d", pos), false)
+			}
+		}
+		// map fields: one value per map field with every wire-type flip of every key (outer key, entry key, entry value key): the
+		// entry decoder is a separate piece of generated code per key / value kind
+		for i, fd := range d.S.must(t) {
+			if fd.C != "map" {
+				continue
+			}
+			for _, am := range vals {
+				if am.F[i].P != 1 || len(am.F[i].KV) == 0 {
+					continue
+				}
+				// variable-length keys / values of 3 and 7 bytes: with the length byte they are exactly as long as a fixed32 / fixed64, so
+				// that a flipped key still leaves a well-formed entry (the reference then skips the field as unknown)
+				variants := []AM{cloneAM(am)}
+				for _, n := range []int{3, 7} {
+					v := cloneAM(am)
+					touched := false
+					if fd.Mv == "string" || fd.Mv == "bytes" {
+						v.F[i].KV[0].V = sv(rep('v', n))
+						touched = true
+					}
+					if fd.Mk == "string" {
+						v.F[i].KV[0].K = sv(rep('k', n))
+						touched = true
+					}
+					if touched {
+						variants = append(variants, v)
+					}
+				}
+				for vi, v := range variants {
+					b := d.S.Encode(t, d.S.WithRequired(t, v, d.R), EncOpts{})
+					if len(b) == 0 || len(b) > 200 {
+						continue
+					}
+					for _, pos := range keyOffsets(b, 0, 0) {
+						for wt := byte(0); wt < 8; wt++ {
+							if wt != b[pos]&7 {
+								mb := append([]byte{}, b...)
+								mb[pos] = mb[pos]&^7 | wt
+								d.unmarshalOne(ti, mb, false, fmt.Sprintf("wtflip-map%d.%d-%d-%d", fd.N, vi, pos, wt), false)
+							}
+						}
+					}
+				}
+				break
 			}
 		}
 		for k := 0; k < perType; k++ {
